@@ -453,7 +453,7 @@ fn build_labelled<'a>(d: &'a PrettifiableDataset) -> BTreeSet<&'a SimpleTerm<'a>
                             named_graphs: [q.g()].into_iter().collect(),
                             out_degree: usize::from(i == 0),
                             predecessor: if i == 2 { Some(q.s()) } else { None },
-                            visited: false,
+                            visited: 0,
                         });
                 }
                 TermKind::Triple => {
@@ -473,7 +473,7 @@ fn build_labelled<'a>(d: &'a PrettifiableDataset) -> BTreeSet<&'a SimpleTerm<'a>
                                 named_graphs: Default::default(),
                                 out_degree: 0,
                                 predecessor: None,
-                                visited: false,
+                                visited: 0,
                             });
                     }
                 }
@@ -483,22 +483,28 @@ fn build_labelled<'a>(d: &'a PrettifiableDataset) -> BTreeSet<&'a SimpleTerm<'a>
     }
     // detect blank node cycles
     let keys: Vec<_> = profiles.keys().copied().collect();
-    for key in keys {
+    for (walk, key) in keys.into_iter().enumerate() {
+        // each walk along the predecessor chain stamps the nodes it visits with its own number,
+        // so that running into a node of the *same* walk (a cycle, wherever the walk entered it)
+        // can be told apart from running into a node explored by a previous walk
+        let walk = walk + 1;
         let profile = profiles.get_mut(&key).unwrap();
-        if profile.bad || profile.visited {
+        if profile.bad || profile.visited != 0 {
             continue;
         }
-        profile.visited = true;
+        profile.visited = walk;
         let mut current = profile.predecessor;
         while let Some(t) = current {
             if let Some(p) = profiles.get_mut(&t) {
-                if t == key {
+                if p.bad {
+                    break;
+                } else if p.visited == walk {
                     p.bad = true;
                     break;
-                } else if p.bad || p.visited {
+                } else if p.visited != 0 {
                     break;
                 } else {
-                    p.visited = true;
+                    p.visited = walk;
                     current = p.predecessor;
                 }
             } else {
@@ -517,7 +523,7 @@ struct BnodeProfile<'a> {
     named_graphs: BTreeSet<GraphName<&'a SimpleTerm<'a>>>,
     out_degree: usize,
     predecessor: Option<&'a SimpleTerm<'a>>,
-    visited: bool,
+    visited: usize,
 }
 
 impl<'a> BnodeProfile<'a> {
